@@ -15,6 +15,7 @@ CONSTANTS
   MaxSt = 2
   MaxLd = 1
   MaxLen = 3
+  Template <- NoTemplate
   Q = {}
   Clauses <- AllClauses
   Probe = FALSE
